@@ -70,6 +70,13 @@ namespace CDNS {
          */
         virtual void rotate_output(const boost::any& value) = 0;
 
+        /**
+         * @brief Find out if the output closed by the last rotate_output() call is incomplete, because
+         * some of its data couldn't be written when it was being closed. Calling this method resets the indication.
+         * @return `true` if the closed output is missing some data
+         */
+        virtual bool close_failed() { return false; }
+
         protected:
         /**
          * @brief Open the output with given identifier or check if its valid
@@ -126,7 +133,7 @@ namespace CDNS {
          * @throw CborOutputExtension if opening of the output file fails
          */
         Writer(const std::string& filename, const std::string extension = "")
-            : BaseCborOutputWriter(), m_value(filename), m_extension(extension), m_out() { open(); }
+            : BaseCborOutputWriter(), m_value(filename), m_extension(extension), m_out(), m_failed(false) { open(); }
 
         /**
          * @brief Destroy the Writer object and close the current output file
@@ -141,10 +148,12 @@ namespace CDNS {
          * @brief Write data in buffer to output file
          * @param p Start of the buffer with data
          * @param size Size of the data in bytes
-         * @throw std::ios_base::failure if writing to output file fails
+         * @throw CborOutputException if writing to output file fails
          */
         void write(const char* p, std::size_t size) override {
             m_out.write(p, size);
+            if (m_out.fail())
+                throw CborOutputException("Couldn't write to the output file!");
         }
 
         /**
@@ -159,6 +168,16 @@ namespace CDNS {
             close();
             m_value = boost::any_cast<std::string>(value);
             open();
+        }
+
+        /**
+         * @brief Find out if the output file closed by the last rotate_output() call is incomplete
+         * @return `true` if the closed output file is missing some data
+         */
+        bool close_failed() override {
+            bool failed = m_failed;
+            m_failed = false;
+            return failed;
         }
 
         protected:
@@ -179,8 +198,17 @@ namespace CDNS {
             try {
                 if (m_out.is_open()) {
                     m_out.flush();
+                    bool failed = m_out.fail();
                     m_out.close();
-                    if (std::rename((m_value + m_extension + ".part").c_str(), (m_value + m_extension).c_str()))
+                    failed = failed || m_out.fail();
+                    m_out.clear();
+
+                    if (failed) {
+                        // Incomplete file keeps its ".part" name
+                        m_failed = true;
+                        std::cerr << "Couldn't write all data to the output file!" << std::endl;
+                    }
+                    else if (std::rename((m_value + m_extension + ".part").c_str(), (m_value + m_extension).c_str()))
                         std::cerr << "Couldn't rename the output file!" << std::endl;
                 }
             }
@@ -192,6 +220,7 @@ namespace CDNS {
         std::string m_value;
         std::string m_extension;
         std::ofstream m_out;
+        bool m_failed; //!< Some data of the output file closed last couldn't be written
     };
 
     /**
@@ -308,6 +337,14 @@ namespace CDNS {
             m_writer->rotate_output(value);
         }
 
+        /**
+         * @brief Find out if the output closed by the last rotate_output() call is incomplete
+         * @return `true` if the closed output is missing some data
+         */
+        bool close_failed() override {
+            return m_writer->close_failed();
+        }
+
         private:
         std::unique_ptr<BaseCborOutputWriter> m_writer;
     };
@@ -323,7 +360,7 @@ namespace CDNS {
          * @throw CborOutputException if initialization of the output fails
          */
         template<typename T>
-        GzipCborOutputWriter(const T& value) : m_writer(nullptr), m_gzip() {
+        GzipCborOutputWriter(const T& value) : m_writer(nullptr), m_gzip(), m_failed(false) {
             m_writer = std::make_unique<Writer<T>>(value, ".gz");
             open();
         }
@@ -357,6 +394,16 @@ namespace CDNS {
             open();
         }
 
+        /**
+         * @brief Find out if the output closed by the last rotate_output() call is incomplete
+         * @return `true` if the closed output is missing some data
+         */
+        bool close_failed() override {
+            bool failed = m_writer->close_failed() || m_failed;
+            m_failed = false;
+            return failed;
+        }
+
         private:
         /**
          * @brief Open the output with given identifier or check if its valid
@@ -381,6 +428,7 @@ namespace CDNS {
 
         std::unique_ptr<BaseCborOutputWriter> m_writer;
         z_stream m_gzip;
+        bool m_failed; //!< The end of the GZIP stream closed last couldn't be written
     };
 
     /**
@@ -394,7 +442,7 @@ namespace CDNS {
          * @throw CborOutputException if initialization of the output fails
          */
         template<typename T>
-        XzCborOutputWriter(const T& value) : m_writer(nullptr), m_lzma(LZMA_STREAM_INIT) {
+        XzCborOutputWriter(const T& value) : m_writer(nullptr), m_lzma(LZMA_STREAM_INIT), m_failed(false) {
             m_writer = std::make_unique<Writer<T>>(value, ".xz");
             open();
         }
@@ -428,6 +476,16 @@ namespace CDNS {
             open();
         }
 
+        /**
+         * @brief Find out if the output closed by the last rotate_output() call is incomplete
+         * @return `true` if the closed output is missing some data
+         */
+        bool close_failed() override {
+            bool failed = m_writer->close_failed() || m_failed;
+            m_failed = false;
+            return failed;
+        }
+
         private:
         /**
          * @brief Open the output with given identifier or check if its valid
@@ -452,5 +510,6 @@ namespace CDNS {
 
         std::unique_ptr<BaseCborOutputWriter> m_writer;
         lzma_stream m_lzma;
+        bool m_failed; //!< The end of the LZMA stream closed last couldn't be written
     };
 }
